@@ -34,7 +34,12 @@ RULE = (
     "of the bursts with a parent run WITHOUT A SESSION: the server resets its link, the tree connections stay "
     "open, the parent sends the requests (distributed / legacy), then the harness logs in again; forwarding is "
     "judged as usual (forward:missing:<carrier>:without-session), the reply is not (no server to look the asker "
-    "up). Oracle per request, "
+    "up). In 25 % of the runs (any family) 1-3 indexed files (never all) are deleted from disk AFTER the scan "
+    "(stale index; visible and friends/users-only directories alike) and 40 % of the otherwise free queries are a "
+    "word of such a file: the expected reply carries the indexed matches that still exist; when a match vanished "
+    "and others remain exactly one reply is required (reply:missing:a-matching-file-vanished-from-disk); when ALL "
+    "indexed matches vanished 0 or 1 reply is accepted (the library sends an empty one) but it must name no file. "
+    "Oracle per request, "
     "K = links of the client's children at the quiescent moment before the burst, minus every connection the client "
     "itself opened (SimNet: dialled by 'me' or pierced on the client's ConnectToPeer - a connection to a proposed "
     "user is a candidate's whatever the children list says: forward:to-candidate), plus every connection that was "
@@ -61,7 +66,9 @@ ASSUMPTIONS = [
 MIN_OBS = {
     'quick': {'runs': 290, 'requests_judged': 1400, 'forwards_checked': 3000, 'replies_checked': 1000,
               'replies_expected': 250, 'own_name_requests': 100, 'bursts_with_child_closing': 30,
-              'runs_with_many_proposals': 25, 'bursts_without_session': 30, 'bursts_with_asker_closing': 40},
+              'runs_with_many_proposals': 25, 'bursts_without_session': 30, 'bursts_with_asker_closing': 40,
+              'runs_with_vanished_files': 50, 'replies_expected_with_vanished_match': 100,
+              'replies_expected_with_vanished_locked_match': 40},
     'thorough': {'runs': 9800, 'requests_judged': 48000, 'forwards_checked': 100000, 'replies_checked': 35000,
                  'replies_expected': 8000, 'own_name_requests': 3500, 'bursts_with_child_closing': 1000,
                  'runs_with_many_proposals': 900, 'bursts_without_session': 1000, 'bursts_with_asker_closing': 1300},
